@@ -237,5 +237,20 @@ PROPS["C06"] = dict(
     assumptions=["calibration table in src/props/c06.cpp"],
 )
 
+PROPS["C02"] = dict(
+    engine="rc", engine_name="rc-tape", sources=["props/c02.cpp"], level="exploration", design_ref="3.2", tape_scale=6,
+    quick=dict(cases=900), thorough=dict(cases=40000),
+    technique="structure-aware fuzzing through the tape engine (rapidcheck-generated and shrunk; the same body runs under libFuzzer in the thorough tier): valid vgen/encoder headers and packets with field-level mutation at the exact bit positions of header fields, byte-level damage and generated call scripts; oracle = ASan/UBSan/LSan + 8 MiB stack + documented return-code sets + pcmout bounds + clear functions",
+    level_text="Inputs: complete valid streams from vgen (every setup feature, up to 255 channels, 64..8192 blocks, ordered codebooks of up to 2^22 entries) or the encoder; 0..4 mutations: any setup/identification field overwritten with 0, 1, max, max-1, "
+               "mid or random (positions logged by the header writer), truncation at any byte, bit flips, random bytes, reordered or replaced headers, damaged audio packets, perturbed b_o_s/e_o_s/granulepos/packetno. Scripts of 4..44 calls "
+               "over headerin, idheader, synthesis_init, synthesis, trackonly, blockin, pcmout+read (incl. too many), lapout, restart, halfrate (before and after init), packet_blocksize, info_blocksize, granule_time, block_clear/init, dsp_clear. "
+               "Every returned sample is read; return values must lie in the documented sets; after any rejection the clear calls (twice) must work and leave zeros; no leak (per-case LeakSanitizer); a per-case CPU budget bounds termination.",
+    level_note="Calls are made within the documented contract (decode calls only on an initialised state, blockin only after a successful synthesis/trackonly on that block) plus the misuse classes the property names. Termination is decided by a CPU-time "
+               "budget per case (150 s, thousands of times the normal cost), not by proof.",
+    rule="case = material + mutations + call script; non-trivial = the identification header was accepted and a later header or packet reached a type-specific unpacker; distinct by hash of (case description, return-code history)",
+    require_labels=["header rejected", "synthesis_init succeeded", "synthesis_init failed", "audio packet rejected", "decoded at least one block", "mutated input", "huge ordered codebook", "encoder stream"],
+    assumptions=["system libogg 1.3.5 is correct"],
+)
+
 NOT_APPLICABLE = {}
 HOOK_COMMITS = []
